@@ -5,7 +5,8 @@ different hash seeds.  `install(mode)` puts the names `set` and `frozenset` into
 every loaded `sigma.*` module, so that every *call* `set(...)` / `frozenset(...)` in the library
 creates a PermSet / PermFrozenSet: a real set subclass whose iteration order is the elements
 sorted by repr() and then permuted according to `mode` (0 sorted, 1 reversed, 2 rotated by one,
-3 rotated by two).  Any of these orders is a legitimate behaviour of a real set.
+3 rotated by two; thorough tier: 4 reversed+rotated, 5 even then odd positions, 6 odd positions
+reversed then even, 7 ordered by the reversed text).  Any of these orders is a legitimate behaviour of a real set.
 Set displays / comprehensions and sets created by C code (dataclass default_factory=set captured
 at class creation) are not intercepted - the harness reports them by an AST scan.
 """
@@ -23,6 +24,15 @@ def _order(items):
         xs = xs[1:] + xs[:1]
     elif m == 3 and len(xs) > 1:
         xs = xs[2 % len(xs):] + xs[: 2 % len(xs)]
+    elif m == 4 and xs:  # reversed, rotated by one
+        xs.reverse()
+        xs = xs[1:] + xs[:1]
+    elif m == 5:  # even positions, then odd positions
+        xs = xs[0::2] + xs[1::2]
+    elif m == 6:  # odd positions reversed, then even positions
+        xs = xs[1::2][::-1] + xs[0::2]
+    elif m == 7:  # ordered by the reversed text
+        xs = sorted(xs, key=lambda x: repr(x)[::-1])
     return xs
 
 
